@@ -44,6 +44,7 @@ def encode(obj):
     validate_encoded(obj)
     return obj
   elif isinstance(obj, int) or isinstance(obj, float):
+    validate_decoded(obj)
     return str(obj)
   else:
     raise gfapy.TypeError(
